@@ -498,3 +498,113 @@ Theorem C08_args_issubclass_fast_path_refuted :
     map fst (spec_trace unit show_render (Some 3) (80, 30) a (map (lower doc_install) ex_hist)).
 Proof. exact (conj issub_accepts_incompatible issub_variant_refuted). Qed.
 Print Assumptions C08_args_issubclass_fast_path_refuted.
+
+(** ** ROUND 9 — the padding object by its CLASS; the padded size ACROSS [set_render_size]
+    ([model/IterPadCls.v]) *)
+From TI Require Import model.IterPadCls proofs.IterPadClsProofs.
+
+(** a padding with relative dimensions is resolved when it is received whatever the class of the
+    object ([AlignedPadding] itself or a client subclass): the padding in force depends on the
+    fields only, is the one [Iter] / [IterSpec] compute ([resolve]) ... *)
+Theorem C08_relative_padding_resolved_whatever_its_class :
+  forall term k k' p,
+    wf_offered {| pk := k; pp := p |} = true -> wf_offered {| pk := k'; pp := p |} = true ->
+    install_pad term {| pk := k; pp := p |} = install_pad term {| pk := k'; pp := p |}
+    /\ install_pad term {| pk := k; pp := p |} = resolve term p.
+Proof. exact relative_padding_resolved_whatever_its_class. Qed.
+Print Assumptions C08_relative_padding_resolved_whatever_its_class.
+
+(** ... is the documented one (resolution by [relative] only), and has no relative dimension left *)
+Theorem C08_padding_object_installed_as_documented :
+  forall term o, wf_offered o = true ->
+    install_pad term o = doc_install_pad term o /\ usable (install_pad term o) = true.
+Proof. exact (fun term o H => conj (install_pad_is_doc term o H) (installed_padding_usable term o H)). Qed.
+Print Assumptions C08_padding_object_installed_as_documented.
+
+(** EXCLUDED design: the exact-type test [type(padding) is AlignedPadding and padding.relative]
+    leaves a terminal-relative instance of a SUBCLASS unresolved (every later use raises
+    RelativePaddingDimensionError); it differs from the code on such objects only *)
+Theorem C08_relative_padding_exact_type_test_refuted :
+  wf_offered ex_sub_relative = true /\
+  install_pad (80, 30) ex_sub_relative = PAligned 80 28 1 1 /\
+  doc_install_pad (80, 30) ex_sub_relative = PAligned 80 28 1 1 /\
+  install_pad_exact_type (80, 30) ex_sub_relative = PAligned 0 (-2) 1 1 /\
+  usable (install_pad_exact_type (80, 30) ex_sub_relative) = false /\
+  padded_size (install_pad_exact_type (80, 30) ex_sub_relative) (2, 2) <>
+  padded_size (doc_install_pad (80, 30) ex_sub_relative) (2, 2).
+Proof. exact exact_type_test_refuted. Qed.
+Print Assumptions C08_relative_padding_exact_type_test_refuted.
+
+(** [set_padding] with an object of ANY class, in EVERY state: on an open iterator the documented
+    padding is in force afterwards together with its padded size and nothing is yielded; on a
+    finalized one FinalizedIteratorError and the WHOLE state unchanged — no other error exists,
+    no rejected call changes anything *)
+Theorem C08_set_padding_object_step :
+  forall RS render n term (s : state RS) x,
+    step RS render n term s (lowerp (PSetPadding x)) =
+    if closed s then (s, OErr EFinalized)
+    else (set_padded RS (set_pad RS s (doc_install_pad term x))
+                     (padded_size (doc_install_pad term x) (d_size (rd s))), OOk).
+Proof. exact set_padding_object_step. Qed.
+Print Assumptions C08_set_padding_object_step.
+
+(** for EVERY history whose [set_padding] and constructor carry padding objects of any class: the
+    trace of the code (its [isinstance] test) is the trace of the documented machine under the
+    documented rule; and the same stated on the fields of the objects *)
+Theorem C08_padding_objects_history_refines_spec :
+  forall RS render n term c x0 rs0 s a h,
+    (cache_decision n (c_cache c) = false \/ render_det RS render) ->
+    wf_offered x0 = true -> forallb pop_wf h = true ->
+    mk RS n term (with_pad_by (install_pad term) c x0) rs0 = inl s ->
+    spec_mk RS n term (with_pad_by (doc_install_pad term) c x0) rs0 = inl a ->
+    trace RS render n term s (map (lower_by (install_pad term)) h) =
+    spec_trace RS render n term a (map (lower_by (doc_install_pad term)) h).
+Proof. exact padcls_installed_history_refines_spec. Qed.
+Print Assumptions C08_padding_objects_history_refines_spec.
+
+Theorem C08_padding_fields_history_refines_spec :
+  forall RS render n term c x0 rs0 s a h,
+    (cache_decision n (c_cache c) = false \/ render_det RS render) ->
+    mk RS n term (with_pad c x0) rs0 = inl s ->
+    spec_mk RS n term (with_pad c x0) rs0 = inl a ->
+    trace RS render n term s (map lowerp h) = spec_trace RS render n term a (map lowerp h).
+Proof. exact padcls_history_refines_spec. Qed.
+Print Assumptions C08_padding_fields_history_refines_spec.
+
+(** after [set_render_size] on an open iterator, in EVERY state: the stored padded size is
+    [padded_size] of the CURRENT padding at the NEW size, whatever the old render size and the old
+    padded size were; the padding is unchanged, nothing is yielded *)
+Theorem C08_padded_size_after_set_render_size :
+  forall RS render n term (s : state RS) sz,
+    closed s = false ->
+    let s' := fst (step RS render n term s (SetSize sz)) in
+    padded s' = padded_size (pad s) sz /\ pad s' = pad s /\ d_size (rd s') = sz
+    /\ snd (step RS render n term s (SetSize sz)) = OOk.
+Proof. exact padded_size_after_set_render_size. Qed.
+Print Assumptions C08_padded_size_after_set_render_size.
+
+(** an aligned padding leaves a size alone iff the size is below its minimum in NEITHER dimension *)
+Theorem C08_aligned_unpadded_iff :
+  forall w h ha va sz,
+    padded_size (PAligned w h ha va) sz = sz <->
+    below_min_w (PAligned w h ha va) sz = false /\ below_min_h (PAligned w h ha va) sz = false.
+Proof. exact aligned_unpadded_iff. Qed.
+Print Assumptions C08_aligned_unpadded_iff.
+
+(** EXCLUDED design 'unpadded now = unpadded afterwards': right for exact dimensions, refuted for an
+    aligned padding whose minimum is not above the OLD render size but above the NEW one (both
+    dimensions, width only, height only) *)
+Theorem C08_padded_size_after_set_render_size_shortcut_refuted :
+  (forall l t r b old new,
+      padded_after_resize_shortcut (PExact l t r b) (padded_size (PExact l t r b) old) old new =
+      padded_size (PExact l t r b) new) /\
+  (let p := PAligned 3 3 1 1 in
+   padded_size p (4, 3) = (4, 3) /\
+   padded_after_resize_shortcut p (padded_size p (4, 3)) (4, 3) (1, 1) = (1, 1) /\
+   padded_size p (1, 1) = (3, 3)) /\
+  (let p := PAligned 3 1 0 0 in
+   padded_after_resize_shortcut p (padded_size p (3, 2)) (3, 2) (2, 3) <> padded_size p (2, 3)) /\
+  (let p := PAligned 1 3 2 2 in
+   padded_after_resize_shortcut p (padded_size p (2, 3)) (2, 3) (3, 2) <> padded_size p (3, 2)).
+Proof. exact (conj shortcut_right_for_exact shortcut_refuted). Qed.
+Print Assumptions C08_padded_size_after_set_render_size_shortcut_refuted.
